@@ -443,6 +443,31 @@ func runC19(r *Report) {
 					next = append(next, constString(k))
 				}
 			}
+			// a classifier of the package the repository's error is handed to
+			// (`isRepositoryUnavailable(err)`): every code it tests is a fall-through code as well
+			Instrs(lm, func(in ssa.Instruction) {
+				hc, ok := in.(*ssa.Call)
+				if !ok {
+					return
+				}
+				h := hc.Common().StaticCallee()
+				if h == nil || h.Pkg != lm.Pkg || len(h.Blocks) == 0 {
+					return
+				}
+				for i, a := range hc.Call.Args {
+					if !valueFromCall(a, rc) || i >= len(h.Params) {
+						continue
+					}
+					for _, ic := range Calls(h, false, "errors:IsCode") {
+						if stripValue(Arg(ic, 0)) != ssa.Value(h.Params[i]) {
+							continue
+						}
+						if k, ok := stripValue(Arg(ic, 1)).(*ssa.Const); ok {
+							next = append(next, constString(k))
+						}
+					}
+				}
+			})
 		}
 		if lr := repoStage; lr != nil && len(repoCalls) > 0 {
 			r.Ob("R-C19-4", CallPos(repoCalls[0]), len(next) > 0, "lookupMapping falls through to the legacy sources only on a named error code of the repository lookup", "lookupMapping", "fallthrough-code")
